@@ -26,6 +26,7 @@ fn main() {
         "C01" => checks_e1::c01(&mut rep, &tier, seed, "C01"),
         "C02" => checks_e2::c02(&mut rep, &tier, seed),
         "C03" => checks_e1::c03(&mut rep, &tier, seed),
+        "C03M" => checks_e1::c03_miri(&mut rep, seed),
         "C04" => checks_e2::c04(&mut rep, &tier, seed),
         "C05" => checks_e1::c05(&mut rep, &tier, seed, "C05"),
         "C06" => checks_e1::c06(&mut rep, &tier, seed, "C06"),
